@@ -389,6 +389,11 @@ Definition toggles_history_full : Prop := pt_history_full /\ ovl_history_full.
 Theorem toggles_history_holds : toggles_history_full.
 Proof. split; [exact pt_history_holds|exact ovl_history_holds]. Qed.
 
+Theorem toggles_history_last c caps capable :
+  snd (pt_init c (pt_run c toggles_off caps) capable) = snd (pt_init c toggles_off capable) /\
+  snd (ovl_init c (ovl_run c toggles_off caps) capable) = snd (ovl_init c toggles_off capable).
+Proof. split; [apply pt_history_last|apply ovl_history_last]. Qed.
+
 (* the former refutation witnesses, now examples of the repaired behaviour *)
 Lemma reinit_witness_pt :
   t_no_open (pt_run under_vfs toggles_off [all_caps]) = true /\
